@@ -107,3 +107,30 @@ func TestVerifC13Ingest(t *testing.T) {
 		"The C13 histories plus Ingest / IngestAndExcise / Excise; a durable-only view that is a flushed prefix united with later ingests/excises "+
 			"(only unflushed batches missing) is reported under the class durable-view-non-prefix.")
 }
+
+// C22: MANIFEST updates are atomic and durable at every crash point.
+func TestVerifC22(t *testing.T) {
+	k := baseKnobs("C22")
+	k.Ingest, k.Excise, k.MaintHeavy, k.Reopen, k.Ratchet = true, true, true, true, true
+	runCrashDeck(t, "C22", "main", Options{Prop: "C22", Knobs: k, CloneEvery: 3, Depth: 1, AllowMixed: true, VersionOracle: true,
+		Setup: func(r *dbcheck.Run) {
+			// rotate the MANIFEST on every edit in a third of the histories
+			r.Cfg.MaxManifest = []int64{1, 1 << 10, 128 << 20}[r.Rng().IntN(3)]
+		}}, 15, 400,
+		"Histories dominated by version updates (flushes, manual and automatic compactions, ingests, excises, format ratchets) with MaxManifestFileSize "+
+			"in {1 B = rotate on every edit, 1 KiB, default}. Every crash clone is first opened READ-ONLY: its table layout (per level: file numbers, "+
+			"bounds, sequence numbers, sizes, backings, blob references) must equal a version that was installed at or after the last version "+
+			"installed before the clone was taken (each installed version is recorded from Options.DebugCheck); then it is opened normally and its "+
+			"content checked as in C10. Open failing (marker naming a missing or incomplete MANIFEST) is a violation.")
+}
+
+// C38: checkpoints open to a consistent, complete state.
+func TestVerifC38(t *testing.T) {
+	k := baseKnobs("C38")
+	k.Ingest, k.Excise, k.ValueSep = true, true, true
+	runCrashDeck(t, "C38", "main", Options{Prop: "C38", Knobs: k, CloneEvery: 1 << 30, Depth: 0, AllowMixed: true, Extra: CheckpointExtra}, 60, 1500,
+		"Histories with checkpoints taken at random points (with flushable ingests queued, virtual tables and blob files present, during background "+
+			"flushes/compactions), WithFlushedWAL x WithRestrictToSpans; the checkpoint is opened while the source keeps running and its full "+
+			"state (or, with restricted spans, the state inside the spans) must equal the model state after some prefix P of the units with "+
+			"P >= the last synced unit (>= every committed unit with WithFlushedWAL).")
+}
